@@ -152,13 +152,22 @@ struct VoidInputs {
 };
 
 // allocations of: building the combinator + completing every input + reading the result
+// fail: 0 every input succeeds, 1 the first input fails (StopError), 2 the last one fails (completed first)
 template <typename Build>
-void Combinator(const char* api, std::size_t n, Build build) {
+void Combinator(const char* api, std::size_t n, Build build, int fail = 0) {
   Inputs in{n};
   auto a0 = News();
   auto out = build(in);
   auto a1 = News();
-  in.Fulfil();
+  if (fail == 2) {
+    // every other input completes successfully after the failure was seen
+    std::move(in.ps.back()).Set(yaclib::StopTag{});
+    for (std::size_t i = 0; i + 1 < in.ps.size(); ++i) {
+      std::move(in.ps[i]).Set(static_cast<int>(i));
+    }
+  } else {
+    in.Fulfil(fail == 1);
+  }
   auto a2 = News();
   (void)std::move(out).Get();
   auto a3 = News();
@@ -245,6 +254,15 @@ int AllocsMain(int argc, char** argv) {
     Combinator("WhenAny<FirstFail>(begin,n)", n, [](Inputs& in) { return yaclib::WhenAny<FailPolicy::FirstFail>(in.fs.begin(), in.fs.size()); });
     Combinator("WhenAny<None>(begin,n)", n, [](Inputs& in) { return yaclib::WhenAny<FailPolicy::None>(in.fs.begin(), in.fs.size()); });
     Combinator("Join(begin,n)", n, [](Inputs& in) { return yaclib::Join(in.fs.begin(), in.fs.size()); });
+    // the same with a failing input: the cost stays a constant on the failure paths too
+    for (int fail = 1; fail <= 2; ++fail) {
+      const std::string tag = fail == 1 ? " first fails" : " last fails, completed first";
+      Combinator(("WhenAll<FirstFail>(begin,n)" + tag).c_str(), n, [](Inputs& in) { return yaclib::WhenAll(in.fs.begin(), in.fs.size()); }, fail);
+      Combinator(("WhenAll<None>(begin,n)" + tag).c_str(), n, [](Inputs& in) { return yaclib::WhenAll<FailPolicy::None>(in.fs.begin(), in.fs.size()); }, fail);
+      Combinator(("WhenAny<LastFail>(begin,n)" + tag).c_str(), n, [](Inputs& in) { return yaclib::WhenAny(in.fs.begin(), in.fs.size()); }, fail);
+      Combinator(("WhenAny<FirstFail>(begin,n)" + tag).c_str(), n, [](Inputs& in) { return yaclib::WhenAny<FailPolicy::FirstFail>(in.fs.begin(), in.fs.size()); }, fail);
+      Combinator(("Join(begin,n)" + tag).c_str(), n, [](Inputs& in) { return yaclib::Join(in.fs.begin(), in.fs.size()); }, fail);
+    }
     {
       VoidInputs in{n};
       auto a0 = News();
